@@ -22,14 +22,13 @@ Defects this module found / replays (clause `run completes`), FIXED in /repo sin
   D-6  p-mask route: `_get_validity_mask` IndexError when n_valid > n_genes.
   N-1  p-mask route: `_p_values_worker` / `_find_markers_from_p_mask_worker` rejected a chunk that
        holds a single pair (np.unique(np.diff([i])) is empty) - e.g. a 2-leaf taxonomy.
+  S-4  a gene less than 1e-5 below a floor was recorded when the strict threshold is within 1e-5 of
+       that floor; the special case `s4` (fold 0.499995, floor 0.5, threshold 0.500001, n_valid 1)
+       is kept as an ordinary case and has to pass.
 Open findings (tagged in the clause text so that known_findings.json can match them):
   N-2  [zero variance in BOTH clusters]: the package turns the NaN CDF of the +-inf Welch statistic
        (nu = 0) into p = 1, so a perfectly separating constant gene is never recorded (scipy: p = 0).
-  S-4  a gene less than 1e-5 below a floor is recorded when the strict threshold is within 1e-5 of
-       that floor (special case `s4`; random cases never put a threshold that close to its floor).
   S-7  one-leaf taxonomy: UnboundLocalError (`del this_cluster_stats`) (special case `s7`).
-Thresholds within 1e-5 of their floors (finding S-4) are NOT generated here; S-4 is reproduced at
-function level (contract approx_penetrance_test#floors).
 """
 import contextlib
 import itertools
@@ -109,7 +108,7 @@ def make_case(seed):
 
 
 def make_special(kind):
-    """deterministic witnesses of the open findings S-4 and S-7"""
+    """deterministic cases: `s4` (former witness of S-4, now an ordinary case) and `s7` (open finding S-7)"""
     if kind == 's7':
         cells = {'c0': np.array([[1.0, 2.0], [1.5, 2.5]])}
         return dict(seed='s7', leaves=['c0'], classes={'A': ['c0']}, cells=cells, genes=['g0', 'g1'],
@@ -342,10 +341,7 @@ def check_against_reference(case, mk, fails, route, exact, inv=None):
                 if not r['p_adj'] < th['p_th'] + TOL:
                     fails.append((f'{route}: marker only if the Holm-corrected Welch p-value is below p_th', where))
                 if not floors:
-                    deficit = max(th['q1_min_th'] - r['q1'], th['qdiff_min_th'] - r['qdiff'],
-                                  th['log2_fold_min_th'] - r['fold'])
-                    tag = ' [S-4: less than 1e-5 below the floor]' if deficit < 1.0e-5 else ''
-                    fails.append((f'{route}: marker only if on or above every penetrance / fold floor' + tag, where))
+                    fails.append((f'{route}: marker only if on or above every penetrance / fold floor', where))
                 if not in_list:
                     fails.append((f'{route}: marker only if it belongs to the gene list', where))
                 if exact and not strict:
@@ -513,7 +509,7 @@ def run(tier='quick', seed=0, jobs=1):
     n = 60 if tier == 'quick' else 600
     row = new_row(FN, 'seeded-random end-to-end (real marker finder vs independent scipy/numpy recomputation)',
                   '<= 4 leaves, <= 6 genes, cluster sizes 1..8, zero-variance genes, ties, gene list, '
-                  '1/2/3 workers, 2 memory budgets; thresholds not within 1e-5 of their floors',
+                  '1/2/3 workers, 2 memory budgets; one case with a threshold 1e-6 above its floor',
                   CLAUSES)
     seeds = ['s4', 's7'] + [seed * 100003 + i for i in range(n)]
     for (st, res), s in zip(parallel_map(one_case, seeds, jobs=min(jobs, 4)), seeds):
